@@ -61,3 +61,32 @@ def http_settings(
 
 def http_block(*a, pad_to=4096, **kw) -> bytes:
     return tlv.encode(http_settings(*a, **kw), pad_to=pad_to)
+
+
+def block_from_cfg(cfg, pubkey_der, extra=(), pad_to=4096) -> bytes:
+    """Configuration block for a dict produced by strategies.http_beacon_config()."""
+    return http_block(
+        pubkey_der,
+        get_steps=[tuple(s) for s in cfg["get_steps"]],
+        post_steps=[tuple(s) for s in cfg["post_steps"]],
+        recover_steps=[tuple(s) for s in cfg["recover_steps"]],
+        pairs=[tuple(p) for p in cfg["pairs"]],
+        submit_uri=cfg["submit_uri"],
+        verb_get=cfg["verb_get"],
+        verb_post=cfg["verb_post"],
+        port=cfg["port"],
+        proto=cfg["proto"],
+        sleeptime=cfg["sleeptime"],
+        jitter=cfg["jitter"],
+        useragent=cfg["useragent"],
+        extra=extra,
+        pad_to=pad_to,
+    )
+
+
+def normalize_cfg(cfg):
+    """Tuples after JSON replay."""
+    c = dict(cfg)
+    for k in ("get_steps", "post_steps", "recover_steps", "pairs"):
+        c[k] = [tuple(x) for x in cfg[k]]
+    return c
